@@ -87,6 +87,12 @@ enum NetFault {
     /// the end of chunk i to the front of chunk i+1): the concatenation is unchanged, only a
     /// chunk size differs - a sender that cuts the message unevenly
     ShiftBoundary { i: usize, d: i32 },
+    /// the FINAL chunk carries `extra` more bytes than the message needs (zeros or 0x77): every
+    /// chunk-level rule still holds, but the concatenation is no longer the packet that was sent
+    GrowLast { extra: usize, zeros: bool },
+    /// one more chunk (id n, `len` zero or 0x77 bytes, end-of-message flag moved onto it) follows
+    /// the real end of the message
+    AppendChunk { len: usize, zeros: bool },
 }
 impl NetFault {
     fn kind(&self) -> &'static str {
@@ -100,6 +106,10 @@ impl NetFault {
             NetFault::Resize { .. } => "resize",
             NetFault::Renumber { .. } => "renumber",
             NetFault::ShiftBoundary { .. } => "shift_boundary",
+            NetFault::GrowLast { zeros: true, .. } => "grow_last_zeros",
+            NetFault::GrowLast { .. } => "grow_last_garbage",
+            NetFault::AppendChunk { zeros: true, .. } => "append_zero_chunk",
+            NetFault::AppendChunk { .. } => "append_garbage_chunk",
         }
     }
 }
@@ -170,6 +180,31 @@ fn apply_fault(chunks: &mut Vec<ChunkSpec>, f: &NetFault) -> bool {
                 return false;
             }
             chunks[i].payload.resize(new_len, 0x77);
+            true
+        }
+        NetFault::GrowLast { extra, zeros } => {
+            // the chunk with the highest id (the specs are in id order until faults renumber them)
+            let Some(last) = (0..n).max_by_key(|&k| chunks[k].chunk_id) else { return false };
+            if extra == 0 || chunks[last].payload.len() + extra > 65535 {
+                return false;
+            }
+            let newlen = chunks[last].payload.len() + extra;
+            chunks[last].payload.resize(newlen, if zeros { 0 } else { 0x77 });
+            true
+        }
+        NetFault::AppendChunk { len, zeros } => {
+            let Some(last) = (0..n).max_by_key(|&k| chunks[k].chunk_id) else { return false };
+            // all non-final chunks must keep one size: the old final chunk becomes non-final, so this
+            // only stays chunk-level legal when it already had the common size (or n == 1)
+            if len == 0 || len > 65535 || chunks[last].chunk_id == u16::MAX {
+                return false;
+            }
+            let mut c = chunks[last].clone();
+            chunks[last].flags &= !1;
+            c.chunk_id += 1;
+            c.flags |= 1;
+            c.payload = vec![if zeros { 0 } else { 0x77 }; len];
+            chunks.push(c);
             true
         }
         NetFault::Renumber { i, id } => {
@@ -408,7 +443,9 @@ impl Check for C04Check {
         };
         for _ in 0..nf {
             let i = r.usize(0, n - 1);
-            faults.push(match r.below(11) {
+            faults.push(match r.below(13) {
+                11 => NetFault::GrowLast { extra: *r.pick(&[1usize, 2, 3, 4, 8, 40]), zeros: r.chance(2, 3) },
+                12 => NetFault::AppendChunk { len: *r.pick(&[1usize, 4, size, size]), zeros: r.chance(2, 3) },
                 9 | 10 => NetFault::ShiftBoundary { i: if n >= 2 { r.usize(0, n - 2) } else { 0 }, d: *r.pick(&[1i32, -1, 2, -3, 4, -4, 8, 16, -16, (size as i32 / 2).max(1), -((size as i32 / 2).max(1))]) },
                 0 => NetFault::Drop(i),
                 1 => NetFault::Dup { i, alter: false },
